@@ -79,6 +79,15 @@ Qed.
 Lemma canon_flip_cases raw y fl : canon_flip raw = (y, fl) -> (fl = false /\ y = raw) \/ (fl = true /\ y = rc raw).
 Proof. unfold canon_flip. destruct (dna_ltb raw (rc raw)); intro H; injection H as <- <-; auto. Qed.
 
+Lemma kcanon_flip_cases stranded raw y fl : kcanon_flip stranded raw = (y, fl) ->
+  (fl = false /\ y = raw) \/ (stranded = false /\ fl = true /\ y = rc raw).
+Proof.
+  unfold kcanon_flip. destruct stranded; [intro H; injection H as <- <-; auto|].
+  intro H. apply canon_flip_cases in H. tauto.
+Qed.
+Lemma kpal_false_ne stranded x : stranded = false -> kpal stranded x = false -> x <> rc x.
+Proof. unfold kpal. intros -> H Hx. cbn in H. apply palindrome_iff in Hx. congruence. Qed.
+
 Section Walk.
 Variable D : Type.
 Variable reduce : D -> D -> D.
@@ -95,12 +104,6 @@ Local Notation anext := (anext D join stranded T).
 Local Notation owin := (owin D T).
 Local Notation ck := (canon_k stranded).
 
-Lemma kcanon_flip_cases raw y fl : kcanon_flip stranded raw = (y, fl) ->
-  (fl = false /\ y = raw) \/ (stranded = false /\ fl = true /\ y = rc raw).
-Proof.
-  unfold kcanon_flip. destruct stranded; [intro H; injection H as <- <-; auto|].
-  intro H. apply canon_flip_cases in H. tauto.
-Qed.
 
 (* everything a static step says *)
 Lemma knext_inv i d j d' : knext i d = Some (j, d') ->
@@ -156,8 +159,6 @@ Qed.
 Definition stepD (D0 : dir) (w0 w1 : dna) : Prop :=
   match D0 with DRight => step_ok D stranded T w0 w1 | DLeft => step_ok D stranded T w1 w0 end.
 
-Lemma kpal_false_ne x : stranded = false -> kpal stranded x = false -> x <> rc x.
-Proof. unfold kpal. intros -> H Hx. cbn in H. apply palindrome_iff in Hx. congruence. Qed.
 
 (* one step in the frame of a walk in direction D0 (the four cases of DESIGN A.2) *)
 Lemma knext_window D0 i d j d' : knext i d = Some (j, d') -> ocond D0 d (kkey i) ->
@@ -188,14 +189,14 @@ Proof.
   { assert (Hst : stranded = true \/ stranded = false) by (destruct stranded; auto). destruct Hst as [Hst|Hst].
     - left. unfold kcanon_flip in Hyf. rewrite Hst in Hyf. injection Hyf as _ <-. cbn [cond_flip] in Hd'.
       rewrite Hd', dflip_dflip. destruct Hc as [Hc|[Hc _]]; [exact Hc | congruence].
-    - right. split; [exact Hst|]. apply kpal_false_ne; auto. }
+    - right. split; [exact Hst|]. apply (kpal_false_ne stranded); auto. }
   assert (Hox : oexts D stranded T (orient D0 d x) = Some (if dir_eqb d D0 then e_exts D ent else e_rc (e_exts D ent)))
     by (eapply oexts_orient; eauto).
   assert (Hoy : oexts D stranded T (orient D0 (dflip d') y) = Some (if dir_eqb (dflip d') D0 then e_exts D yent else e_rc (e_exts D yent)))
     by (eapply oexts_orient; eauto).
   (* the window equation *)
   assert (Hwin : orient D0 (dflip d') y = extend (orient D0 d x) (if dir_eqb d D0 then b else comp b) D0).
-  { unfold orient. destruct (kcanon_flip_cases _ _ _ Hyf) as [[-> Hy]|[Hst [-> Hy]]]; cbn [cond_flip] in Hd'; subst d'.
+  { unfold orient. destruct (kcanon_flip_cases _ _ _ _ Hyf) as [[-> Hy]|[Hst [-> Hy]]]; cbn [cond_flip] in Hd'; subst d'.
     - rewrite dflip_dflip. destruct (dir_cases d D0) as [-> | ->].
       + rewrite dir_eqb_refl. exact Hy.
       + rewrite dir_eqb_flip. rewrite Hy, rc_extend, dflip_dflip by auto. reflexivity.
@@ -211,7 +212,7 @@ Proof.
     - rewrite dir_eqb_flip. rewrite <- (negb_involutive (dirb D0)), <- dirb_dflip. rewrite has_ext_rc; auto. }
   assert (HB : e_has_ext (if dir_eqb (dflip d') D0 then e_exts D yent else e_rc (e_exts D yent)) (dirb (dflip D0))
                  (outer (orient D0 d x) (dflip D0)) = true).
-  { unfold orient. destruct (kcanon_flip_cases _ _ _ Hyf) as [[-> Hy]|[Hst [-> Hy]]]; cbn [cond_flip] in Hd'; subst d'.
+  { unfold orient. destruct (kcanon_flip_cases _ _ _ _ Hyf) as [[-> Hy]|[Hst [-> Hy]]]; cbn [cond_flip] in Hd'; subst d'.
     - rewrite dflip_dflip in *. destruct (dir_cases d D0) as [-> | ->].
       + rewrite dir_eqb_refl. exact Hs.
       + rewrite dir_eqb_flip. rewrite dflip_dflip in *. rewrite outer_rc by auto. rewrite dflip_dflip.
